@@ -116,9 +116,13 @@ def t2_chain(ctx):
     r0 = Renderer(f, inline_locals=False)
     t = r0.s(f['body'])
     vis = [v['name'] for v in walk(f['body']) if v.get('k') == 'var' and v.get('t') == V]
-    dec = [v['name'] for v in walk(f['body']) if v.get('k') == 'var' and r0.r(v.get('init')) == '(call Decode<%s> $0)' % V]
-    ok = len(vis) == 1 and len(dec) == 1 and '(call %s::SetArArp on l:%s $2)' % (V, vis[0]) in t \
-        and '(call Matcher<%s>::call on l:%s l:%s $0 $1)' % (V, dec[0], vis[0]) in t
+    DEC = '(call Decode<%s> $0)' % V
+    dec = [v['name'] for v in walk(f['body']) if v.get('k') == 'var' and 'init' in v and r0.r(v.get('init')) == DEC]
+    # the decoder may be a named local or the Decode<V>(opcode) call itself
+    objs = ['l:%s' % d for d in dec] + [DEC]
+    ok = len(vis) == 1 and '(call %s::SetArArp on l:%s $2)' % (V, vis[0]) in t \
+        and any('(call Matcher<%s>::call on %s l:%s $0 $1)' % (V, o, vis[0]) in t for o in objs) \
+        and t.index('SetArArp') < t.index('Matcher<%s>::call' % V)
     if not ok:
         ctx.report(R, f, f['body'], 'Disassembler::GetTokenList', 'token list is not Decode<Disassembler>(opcode).call(dsm, opcode, expansion) with SetArArp(ar_arp): ' + t[:300])
     f = ctx.fn(DIS + 'Do(unsigned short,unsigned short,std::optional<Teakra::Disassembler::ArArpSettings>)')
